@@ -55,33 +55,117 @@ impl ColorPainter for NullPainter {
     }
 }
 
-pub struct Explorer<'s> {
-    pub s: &'s mut Session,
-    pub other_panics: u64,
+/// Recorder of one exploration run (thread-local: the matrix / field families run on worker threads and
+/// are merged into the session in job order, so the result is independent of the thread schedule).
+#[derive(Default)]
+pub struct Explorer {
     pub ops: u64,
+    pub ok: u64,
+    pub other_panics: u64,
+    /// (site, input, detail) of every overflow / assertion trap
+    pub traps: Vec<(String, String, String)>,
+    pub counts: std::collections::BTreeMap<String, u64>,
+    pub notes: Vec<String>,
 }
 
-impl Explorer<'_> {
+impl Explorer {
+    pub fn count(&mut self, key: &str) {
+        *self.counts.entry(key.to_string()).or_insert(0) += 1;
+    }
+    pub fn count_n(&mut self, key: &str, n: u64) {
+        *self.counts.entry(key.to_string()).or_insert(0) += n;
+    }
+
     /// run one operation; classify its panic (if any)
     pub fn op(&mut self, input: &dyn Fn() -> String, name: &str, f: &mut dyn FnMut()) {
         self.ops += 1;
         match run_catch(|| f()) {
-            Outcome::Ok(()) => {
-                self.s.oracle("explore:no-trap", true, String::new, String::new);
-            }
+            Outcome::Ok(()) => self.ok += 1,
             Outcome::Trap(m) => {
                 let site = m.rsplit(" @ ").next().unwrap_or("?").to_string();
-                self.s.count(&format!("explore-trap@{site}"));
-                let oname = format!("explore:no-trap@{site}");
-                crate::capped_oracle(self.s, &oname, false, &format!("{} op={name}", input()), &m);
+                self.count(&format!("explore-trap@{site}"));
+                // keep at most 6 inputs per site in the recorder
+                if self.traps.iter().filter(|t| t.0 == site).count() < 6 {
+                    self.traps.push((site, format!("{} op={name}", input()), m));
+                }
             }
             Outcome::Other(m) => {
                 self.other_panics += 1;
                 let site = m.rsplit(" @ ").next().unwrap_or("?").to_string();
-                self.s.count(&format!("other-panic(C01/C02)@{site}"));
+                self.count(&format!("other-panic(C01/C02)@{site}"));
             }
         }
     }
+
+    pub fn absorb(&mut self, o: Explorer) {
+        self.ops += o.ops;
+        self.ok += o.ok;
+        self.other_panics += o.other_panics;
+        for t in o.traps {
+            if self.traps.iter().filter(|x| x.0 == t.0).count() < 6 {
+                self.traps.push(t);
+            }
+        }
+        for (k, v) in o.counts {
+            *self.counts.entry(k).or_insert(0) += v;
+        }
+    }
+
+    /// the oracle: one check per operation; every trap is a failure named by its panic site
+    pub fn merge_into(self, s: &mut Session) {
+        s.oracle_checks += self.ok;
+        for (site, input, detail) in &self.traps {
+            crate::capped_oracle(s, &format!("explore:no-trap@{site}"), false, input, detail);
+        }
+        let recorded = self.traps.len() as u64;
+        let total: u64 = self.counts.iter().filter(|(k, _)| k.starts_with("explore-trap@")).map(|(_, v)| *v).sum();
+        s.oracle_checks += total.saturating_sub(recorded);
+        for (k, v) in self.counts {
+            *s.dist.entry(k).or_insert(0) += v;
+        }
+    }
+}
+
+/// run `jobs` on up to `threads` worker threads; results are returned in job order
+pub fn parallel<J: Sync, F: Fn(&J, &mut Explorer) + Sync>(jobs: &[J], threads: usize, f: F) -> Explorer {
+    let n = jobs.len();
+    let threads = threads.max(1).min(n.max(1));
+    let next = std::sync::atomic::AtomicUsize::new(0);
+    let chunk = 16usize;
+    let mut parts: Vec<(usize, Explorer)> = vec![];
+    std::thread::scope(|sc| {
+        let mut hs = vec![];
+        for _ in 0..threads {
+            hs.push(sc.spawn(|| {
+                let mut out: Vec<(usize, Explorer)> = vec![];
+                loop {
+                    let start = next.fetch_add(chunk, std::sync::atomic::Ordering::Relaxed);
+                    if start >= n {
+                        break;
+                    }
+                    let mut ex = Explorer::default();
+                    for j in start..(start + chunk).min(n) {
+                        f(&jobs[j], &mut ex);
+                    }
+                    out.push((start, ex));
+                }
+                out
+            }));
+        }
+        for h in hs {
+            parts.extend(h.join().expect("worker thread"));
+        }
+    });
+    parts.sort_by_key(|p| p.0);
+    let mut all = Explorer::default();
+    for (_, ex) in parts {
+        all.absorb(ex);
+    }
+    all
+}
+
+pub fn worker_threads() -> usize {
+    std::thread::available_parallelism().map(|n| n.get()).unwrap_or(4).min(6)
 }
 
 fn sizes() -> Vec<(String, Size)> {
@@ -118,8 +202,68 @@ fn locations(font: &FontRef) -> Vec<(String, Location)> {
     out
 }
 
+/// consumer groups of `exercise_groups`
+#[derive(Clone, Copy, Debug)]
+pub struct Groups {
+    pub names: bool,
+    pub charmap: bool,
+    pub metrics: bool,
+    pub outlines: bool,
+    pub color: bool,
+    pub klippa: bool,
+    pub vars: bool,
+    pub ift: bool,
+    pub traverse: bool,
+}
+
+impl Groups {
+    pub const ALL: Groups = Groups { names: true, charmap: true, metrics: true, outlines: true, color: true, klippa: true, vars: true, ift: true, traverse: true };
+    pub const NONE: Groups = Groups { names: false, charmap: false, metrics: false, outlines: false, color: false, klippa: false, vars: false, ift: false, traverse: false };
+    /// the consumers that read table `tag` (klippa and the generic traversal read every table)
+    pub fn for_table(tag: &str) -> Groups {
+        let mut g = Groups { klippa: true, traverse: true, ..Groups::NONE };
+        match tag {
+            "head" | "maxp" => return Groups::ALL,
+            "hhea" | "vhea" | "hmtx" | "vmtx" | "OS/2" | "post" | "MVAR" | "VORG" | "hdmx" => {
+                g.metrics = true;
+                g.vars = true;
+                if tag == "hmtx" || tag == "hhea" {
+                    g.outlines = true;
+                }
+            }
+            "HVAR" | "VVAR" => {
+                g.metrics = true;
+                g.vars = true;
+                g.outlines = true;
+            }
+            "fvar" | "avar" | "STAT" => {
+                g.metrics = true;
+                g.vars = true;
+                g.outlines = true;
+                g.color = true;
+                g.names = true;
+            }
+            "glyf" | "loca" | "gvar" | "cvar" | "cvt " | "fpgm" | "prep" | "CFF " | "CFF2" | "VARC" | "gasp" => {
+                g.outlines = true;
+                g.metrics = true;
+            }
+            "COLR" | "CPAL" => g.color = true,
+            "cmap" => g.charmap = true,
+            "name" => g.names = true,
+            "IFT " | "IFTX" => g.ift = true,
+            "GSUB" | "GPOS" | "GDEF" | "BASE" => g.outlines = true, // the autohinter's shaper reads GSUB
+            _ => {}
+        }
+        g
+    }
+}
+
 /// Every operation family on one font image.  `light` restricts sizes/locations (corruptions).
 pub fn exercise(ex: &mut Explorer, label: &dyn Fn() -> String, bytes: &[u8], light: bool) {
+    exercise_groups(ex, label, bytes, light, Groups::ALL)
+}
+
+pub fn exercise_groups(ex: &mut Explorer, label: &dyn Fn() -> String, bytes: &[u8], light: bool, grp: Groups) {
     let font = match run_catch(|| FontRef::new(bytes)) {
         Outcome::Ok(Ok(f)) => f,
         Outcome::Ok(Err(_)) => return,
@@ -148,6 +292,7 @@ pub fn exercise(ex: &mut Explorer, label: &dyn Fn() -> String, bytes: &[u8], lig
     }
 
     // --- attributes, names, charmap
+    if grp.names {
     ex.op(label, "attributes+names", &mut || {
         let _ = font.attributes();
         for s in font.localized_strings(skrifa::string::StringId::FAMILY_NAME) {
@@ -157,6 +302,8 @@ pub fn exercise(ex: &mut Explorer, label: &dyn Fn() -> String, bytes: &[u8], lig
             let _ = inst.location();
         }
     });
+    }
+    if grp.charmap {
     ex.op(label, "charmap", &mut || {
         let cm = font.charmap();
         for c in [0u32, 0x20, 0x41, 0x7F, 0xFF, 0x100, 0x7FFF, 0x8000, 0xFFFE, 0xFFFF, 0x10000, 0x1F600, 0x10FFFF, 0x110000, u32::MAX] {
@@ -165,9 +312,10 @@ pub fn exercise(ex: &mut Explorer, label: &dyn Fn() -> String, bytes: &[u8], lig
         let _ = cm.mappings().take(20_000).count();
         let _ = cm.variant_mappings().take(5_000).count();
     });
+    }
 
     // --- metrics
-    for (sn, size) in &szs {
+    for (sn, size) in szs.iter().filter(|_| grp.metrics) {
         for (ln, loc) in &locs {
             let name = format!("metrics size={sn} loc={ln}");
             ex.op(label, &name, &mut || {
@@ -185,7 +333,7 @@ pub fn exercise(ex: &mut Explorer, label: &dyn Fn() -> String, bytes: &[u8], lig
 
     // --- outlines: unhinted, interpreter, autohinter
     let outlines = font.outline_glyphs();
-    for (sn, size) in &szs {
+    for (sn, size) in szs.iter().filter(|_| grp.outlines) {
         for (ln, loc) in &locs {
             let name = format!("draw-unhinted size={sn} loc={ln}");
             ex.op(label, &name, &mut || {
@@ -222,7 +370,7 @@ pub fn exercise(ex: &mut Explorer, label: &dyn Fn() -> String, bytes: &[u8], lig
 
     // --- colour glyphs
     let colors = font.color_glyphs();
-    for (ln, loc) in &locs {
+    for (ln, loc) in locs.iter().filter(|_| grp.color) {
         let name = format!("paint loc={ln}");
         ex.op(label, &name, &mut || {
             for g in &gids {
@@ -235,8 +383,24 @@ pub fn exercise(ex: &mut Explorer, label: &dyn Fn() -> String, bytes: &[u8], lig
         });
     }
 
+    // --- raw variation accessors of read-fonts at every location (HVAR/VVAR side bearings, MVAR, avar 2)
+    for (ln, loc) in locs.iter().filter(|_| grp.vars) {
+        let name = format!("var-accessors loc={ln}");
+        ex.op(label, &name, &mut || var_accessors(&font, loc.coords(), &gids));
+    }
+
+    // --- generic traversal of every known table (the walk the project's own tooling uses)
+    if grp.traverse {
+        ex.op(label, "traverse", &mut || crate::fields::traverse_all(&font, if light { 3_000 } else { 20_000 }));
+    }
+
+    // --- IFT patch map intersection and patch application (fonts carrying `IFT `/`IFTX`)
+    if grp.ift && (font.table_data(Tag::new(b"IFT ")).is_some() || font.table_data(Tag::new(b"IFTX")).is_some()) {
+        crate::ift::exercise_ift_font(ex, label, &font);
+    }
+
     // --- subsetting plan + subset
-    for (pn, keep) in [("first", 0u32..=num_glyphs.min(40)), ("tail", num_glyphs.saturating_sub(10)..=num_glyphs)] {
+    for (pn, keep) in [("first", 0u32..=num_glyphs.min(40)), ("tail", num_glyphs.saturating_sub(10)..=num_glyphs)].into_iter().filter(|_| grp.klippa) {
         let name = format!("klippa plan+subset keep={pn}");
         ex.op(label, &name, &mut || {
             let mut gs: IntSet<GlyphId> = IntSet::empty();
@@ -260,9 +424,76 @@ pub fn exercise(ex: &mut Explorer, label: &dyn Fn() -> String, bytes: &[u8], lig
     }
 }
 
+/// HVAR / VVAR / MVAR / avar-2 / COLR accessors that skrifa's metrics do not (all) call
+fn var_accessors(font: &FontRef, coords: &[read_fonts::types::F2Dot14], gids: &[u32]) {
+    use read_fonts::tables::variations::{DeltaSetIndex, FloatItemDeltaTarget};
+    let mut sink = 0i64;
+    if let Ok(hvar) = font.hvar() {
+        for g in gids {
+            let g = GlyphId::new(*g);
+            sink += hvar.advance_width_delta(g, coords).map(|d| d.to_bits() as i64).unwrap_or(0);
+            sink += hvar.lsb_delta(g, coords).map(|d| d.to_bits() as i64).unwrap_or(0);
+            sink += hvar.rsb_delta(g, coords).map(|d| d.to_bits() as i64).unwrap_or(0);
+        }
+    }
+    if let Ok(vvar) = font.vvar() {
+        for g in gids {
+            let g = GlyphId::new(*g);
+            sink += vvar.advance_height_delta(g, coords).map(|d| d.to_bits() as i64).unwrap_or(0);
+            sink += vvar.tsb_delta(g, coords).map(|d| d.to_bits() as i64).unwrap_or(0);
+            sink += vvar.bsb_delta(g, coords).map(|d| d.to_bits() as i64).unwrap_or(0);
+            sink += vvar.v_org_delta(g, coords).map(|d| d.to_bits() as i64).unwrap_or(0);
+        }
+    }
+    if let Ok(mvar) = font.mvar() {
+        for rec in mvar.value_records().iter().take(64) {
+            sink += mvar.metric_delta(rec.value_tag(), coords).map(|d| d.to_bits() as i64).unwrap_or(0);
+        }
+        for t in [b"hasc", b"hdsc", b"xhgt", b"undo", b"zzzz"] {
+            sink += mvar.metric_delta(Tag::new(t), coords).map(|d| d.to_bits() as i64).unwrap_or(0);
+        }
+    }
+    if let Ok(avar) = font.avar() {
+        for m in avar.axis_segment_maps().iter().take(64).flatten() {
+            for c in coords.iter().take(8) {
+                sink += m.apply(c.to_fixed()).to_bits() as i64;
+            }
+            for c in [-0x10000i32, -1, 0, 1, 0x8000, 0x10000, i32::MAX, i32::MIN] {
+                sink += m.apply(read_fonts::types::Fixed::from_bits(c)).to_bits() as i64;
+            }
+        }
+        let map = avar.axis_index_map().and_then(|m| m.ok());
+        let store = avar.var_store().and_then(|m| m.ok());
+        for i in [0u32, 1, 2, 7, 0xFFFF, u32::MAX] {
+            let ix = match &map {
+                Some(m) => m.get(i).ok(),
+                None => Some(DeltaSetIndex { outer: (i >> 16) as u16, inner: i as u16 }),
+            };
+            if let (Some(ix), Some(st)) = (ix, &store) {
+                sink += st.compute_delta(ix, coords).unwrap_or(0) as i64;
+            }
+        }
+    }
+    if let Ok(colr) = font.colr() {
+        let map = colr.var_index_map().and_then(|m| m.ok());
+        let store = colr.item_variation_store().and_then(|m| m.ok());
+        for i in [0u32, 1, 2, 50, 0xFFFF, 0x10000, u32::MAX] {
+            let ix = match &map {
+                Some(m) => m.get(i).ok(),
+                None => Some(DeltaSetIndex { outer: (i >> 16) as u16, inner: i as u16 }),
+            };
+            if let (Some(ix), Some(st)) = (ix, &store) {
+                sink += st.compute_delta(ix, coords).unwrap_or(0) as i64;
+                sink += st.compute_float_delta(ix, coords).map(|d| read_fonts::types::Fixed::ZERO.apply_float_delta(d) as i64).unwrap_or(0);
+            }
+        }
+    }
+    std::hint::black_box(sink);
+}
+
 // ---------------------------------------------------------------------------------------------
 
-fn corpus() -> Vec<(String, Vec<u8>)> {
+pub fn corpus() -> Vec<(String, Vec<u8>)> {
     let mut v = vec![];
     let dir = "/repo/font-test-data/test_data/ttf";
     if let Ok(rd) = std::fs::read_dir(dir) {
@@ -279,6 +510,26 @@ fn corpus() -> Vec<(String, Vec<u8>)> {
     v
 }
 
+/// `bytes` rebuilt with a one-group format 12 cmap ('A' -> glyph 1) when it has no cmap table
+pub fn with_cmap(bytes: &[u8]) -> Option<Vec<u8>> {
+    let font = FontRef::new(bytes).ok()?;
+    if font.table_data(Tag::new(b"cmap")).is_some() {
+        return None;
+    }
+    let mut fb = write_fonts::FontBuilder::new();
+    for rec in font.table_directory.table_records() {
+        if let Some(d) = font.table_data(rec.tag()) {
+            fb.add_raw(rec.tag(), d.as_bytes().to_vec());
+        }
+    }
+    let mut cmap: Vec<u8> = vec![0, 0, 0, 1, 0, 3, 0, 10, 0, 0, 0, 12, 0, 12, 0, 0, 0, 0, 0, 28, 0, 0, 0, 0, 0, 0, 0, 1];
+    cmap.extend_from_slice(&0x41u32.to_be_bytes());
+    cmap.extend_from_slice(&0x42u32.to_be_bytes());
+    cmap.extend_from_slice(&1u32.to_be_bytes());
+    fb.add_raw(Tag::new(b"cmap"), cmap);
+    Some(fb.build())
+}
+
 fn be16(b: &[u8], o: usize) -> u16 {
     u16::from_be_bytes([b[o], b[o + 1]])
 }
@@ -287,7 +538,7 @@ fn be32(b: &[u8], o: usize) -> u32 {
 }
 
 /// (tag, offset, length) of each table of a single-font sfnt
-fn tables(b: &[u8]) -> Vec<(String, usize, usize)> {
+pub fn tables(b: &[u8]) -> Vec<(String, usize, usize)> {
     let mut v = vec![];
     if b.len() < 12 {
         return v;
@@ -350,7 +601,7 @@ pub fn run(cfg: &Config, s: &mut Session) {
     let mut rng = Rng::new(cfg.seed ^ 0xE20);
     let fonts = corpus();
     s.notes.push(format!("exploration corpus: {} fonts", fonts.len()));
-    let mut ex = Explorer { s, other_panics: 0, ops: 0 };
+    let mut ex = Explorer::default();
     for (name, bytes) in &fonts {
         let label = || format!("font={name} mut=none");
         exercise(&mut ex, &label, bytes, false);
@@ -365,7 +616,24 @@ pub fn run(cfg: &Config, s: &mut Session) {
         }
     }
     crate::synth::run(cfg, &mut ex, &mut rng);
+    let t1 = std::time::Instant::now();
+    crate::matrix::run(cfg, &mut ex);
+    s.notes.push(format!("bytecode setter x consumer matrix: {:.1}s", t1.elapsed().as_secs_f64()));
+    let t1 = std::time::Instant::now();
+    crate::ift::run(cfg, &mut ex);
+    s.notes.push(format!("IFT families: {:.1}s", t1.elapsed().as_secs_f64()));
+    let t1 = std::time::Instant::now();
+    let mut synth_fonts = crate::synth::field_bases();
+    synth_fonts.extend(crate::ift::base_fonts_for_fields());
+    // klippa's plan panics (expect) without a cmap: corpus fonts that lack one get a minimal cmap so that
+    // their mutants reach the subsetter
+    let field_corpus: Vec<(String, Vec<u8>)> = fonts.iter().map(|(n, b)| match with_cmap(b) { Some(b2) => (format!("{n}+cmap"), b2), None => (n.clone(), b.clone()) }).collect();
+    let note = crate::fields::run(cfg, &mut ex, &field_corpus, &synth_fonts);
+    s.notes.push(format!("{note} ({:.1}s)", t1.elapsed().as_secs_f64()));
     let (ops, other) = (ex.ops, ex.other_panics);
+    let notes = std::mem::take(&mut ex.notes);
+    ex.merge_into(s);
+    s.notes.extend(notes);
     s.notes.push(format!("exploration phase: {:.1}s", t0.elapsed().as_secs_f64()));
     s.notes.push(format!("exploration: {ops} operations, {other} non-arithmetic panics (C01/C02 territory, not reported here)"));
 }
